@@ -334,8 +334,9 @@ def main(argv=None):
         assumptions=getattr(prop, "assumptions", []),
         wall_s=round(time.time() - t0, 1), violations=len(violations), notes=notes + broken_obligations,
     )
-    (VERIF / "evidence").mkdir(exist_ok=True)
-    (VERIF / "evidence" / f"{pid}.json").write_text(json.dumps(ev, indent=1, default=str))
+    evdir = Path(os.environ.get("VERIF_EVIDENCE_DIR") or (VERIF / "evidence"))   # seeded-change trials write elsewhere
+    evdir.mkdir(parents=True, exist_ok=True)
+    (evdir / f"{pid}.json").write_text(json.dumps(ev, indent=1, default=str))
 
     for path, suffix in violations:
         print(f"VIOLATION property={pid} replay={path}{suffix}")
